@@ -298,7 +298,7 @@ var sockOpts = []int{0, 7, 4, 3, 7 | optSmall}
 
 func runSockShard(r *mon.Run, shard, nshards, ncases int) {
 	rng := r.Rand(fmt.Sprintf("robust-sock-%d", shard))
-	st := &shardStats{distinct: map[string]int{}, counts: map[string]int{}}
+	st := newStats()
 	defer st.flush(r)
 	tp := newTestpbTarget()
 	std, err := newStdTarget()
